@@ -780,6 +780,97 @@ def to_gen(t):
     return tuple(to_gen(x) for x in t)
 
 
+# ------------------------------------------------------------------------------------------------
+# giant nodes: a generated program in which one gap between two tokens is widened to ~2^25 / ~2^26 bytes (blanks or a
+# comment), so that the nodes around the gap have extents at the limits of the span encoding.  Expected dump = the dump
+# of the same program with a one-byte gap, every offset behind the gap shifted.
+
+_EXT = re.compile(r"@([0-9]+):([0-9]+)")
+
+
+def shift_dump(dump, g, delta):
+    def f(m):
+        a, b = int(m.group(1)), int(m.group(2))
+        return "@%d:%d" % (a + delta if a > g else a, b + delta if b > g else b)
+    return _EXT.sub(f, dump)
+
+
+def giant_shard(args):
+    seed, n = args
+    rng = random.Random(seed)
+    agg = Agg()
+    srv = Server(mem_gib=6)
+    try:
+        for i in range(n):
+            g = genast.SynGen(rng, rng.choice([5, 10, 20]))
+            tree = genast.dangling_else_safe(g.expr())
+            text = genast.render(tree, "full" if rng.random() < 0.3 else "min")[0]
+            # candidate gaps: single spaces outside string literals (the printer's 'min' mode separates tokens by one space)
+            rec0, _ = parse_src(srv, text)
+            if rec0.status != "OK" or "toks" not in rec0:
+                continue
+            toks = [tuple(map(int, t.split(":"))) for t in rec0["toks"].split(",")]
+            gaps = [toks[j][1] for j in range(len(toks) - 1) if toks[j + 1][0] == toks[j][1] + 1 and text[toks[j][1]:toks[j][1] + 1] == b" "]
+            if not gaps:
+                continue
+            gpos = rng.choice(gaps)
+            base = rng.choice([2 ** 25, 2 ** 26, 2 ** 25, 3 * 2 ** 24])
+            N = base + rng.randint(-40, 40)
+            kind = rng.choice(["blanks", "blanks", "block_comment", "newlines"])
+            if kind == "block_comment":
+                filler_small, parts_mid = b" ", [b"/*", (N - 4, b"c"), b"*/"]
+            elif kind == "newlines":
+                filler_small, parts_mid = b" ", [(N, b"\n")]
+            else:
+                filler_small, parts_mid = b" ", [(N, b" ")]
+            segs = ["x" + text[:gpos].hex()] if gpos else []
+            for p_ in parts_mid:
+                segs.append("r%d:%s" % (p_[0], p_[1].hex()) if isinstance(p_, tuple) else "x" + p_.hex())
+            segs.append("x" + text[gpos + 1:].hex())
+            line = "PARSE " + "+".join(segs)
+            agg.evaluations += 1
+            desc = {"family": "giant_node", "program": text[:300].decode("utf-8", "replace"), "gap_at": gpos, "gap_length": N, "filler": kind}
+            replay = {"script": [line]}
+            try:
+                rec = srv.request([line], timeout=300)[0]
+            except Crashed as e:
+                if e.kind in ("timeout", "oom"):
+                    agg.inconc(e.kind)
+                    continue
+                agg.violation({"kind": "parser_crash", "family": "giant_node"}, dict(desc, crash=e.detail[-300:]), replay)
+                continue
+            if rec.status == "PANIC":
+                agg.violation({"kind": "parser_panic", "family": "giant_node", "msg": re.sub(r"[0-9]+", "N", rec.s("msg") or "")[:80]},
+                              dict(desc, panic=rec.s("msg"), loc=rec.s("loc")), replay)
+                continue
+            if rec.status != "OK" or "ast" not in rec:
+                agg.violation({"kind": "valid_program_rejected_with_wide_gap"}, dict(desc, got=rec.raw[:300]), replay)
+                continue
+            want = shift_dump(unhx(rec0["ast"]).decode("utf-8"), gpos, N - 1)
+            got = unhx(rec["ast"]).decode("utf-8")
+            if got != want:
+                k = next((j for j, (a, b) in enumerate(zip(want, got)) if a != b), 0)
+                agg.violation({"kind": "node_extents_differ_with_wide_gap"},
+                              dict(desc, expected=want[max(0, k - 60):k + 80], got=got[max(0, k - 60):k + 80]), replay)
+                continue
+            wt = ",".join("%d:%d" % (a + (N - 1 if a > gpos else 0), b + (N - 1 if b > gpos else 0)) for a, b in toks)
+            if rec.get("toks") != wt:
+                agg.violation({"kind": "token_extents_differ_with_wide_gap"}, desc, replay)
+                continue
+            # how many nodes have an extent in the critical range?
+            crit = sum(1 for m in _EXT.finditer(got) if int(m.group(2)) - int(m.group(1)) >= 2 ** 25 - 64)
+            agg.count("giant_nodes_checked", crit)
+            agg.count("giant_programs_ok")
+            agg.add("giant_gap_kinds", (kind, base))
+            agg.nontrivial.add(common.h64("giant", text, str(gpos), str(N)))
+            if len(agg.samples) < 1:
+                agg.sample({"leg": "giant_node", "program": text[:200].decode("utf-8", "replace"), "gap_at": gpos, "gap_length": N,
+                            "nodes_with_extent_over_2^25": crit})
+    finally:
+        srv.close()
+    return agg
+
+
 def run(tier, seed):
     t0 = time.time()
     quick = tier != "thorough"
@@ -796,6 +887,8 @@ def run(tier, seed):
         total.merge(a)
     for a in common.pmap(errors_shard, [(seed * 709 + i, 250 if quick else 12000) for i in range(16)]):
         total.merge(a)
+    for a in common.pmap(giant_shard, [(seed * 719 + i, 4 if quick else 60) for i in range(8)], nproc=8):
+        total.merge(a)
     files = genbytes.corpus()
     for a in common.pmap(corpus_shard, [(seed, files[i::16]) for i in range(16)]):
         total.merge(a)
@@ -807,6 +900,8 @@ def run(tier, seed):
             "token boundaries; all ordered pairs (and triples: all in thorough, 1500 in quick) of binary operators, "
             "plain and with unary/postfix decorated operands, grouped as the table says and equal to the fully "
             "parenthesised form; token-level mutants: a syntax error points at a token; every ui-tests file: span laws "
-            "+ print-back/re-parse equality. distinct_nontrivial = distinct trees/operator texts/mutants decided.")
+            "+ print-back/re-parse equality; giant nodes: generated programs with one inter-token gap widened to 2^25+-40 / 2^26+-40 / "
+            "3*2^24+-40 bytes of blanks, newlines or a comment (run-length encoded input): the dump must equal the one-byte-gap dump "
+            "with every offset behind the gap shifted. distinct_nontrivial = distinct trees/operator texts/mutants decided.")
     return common.finish(PROP, tier, seed, total, rule, t0,
                          assumptions=["the printer's precedence table is my reading of the specification (independent of the parser)"])
